@@ -180,7 +180,7 @@ def h_segmented_dispatch():
     from odc.geo.geom import Geometry
 
     if symx.concrete_mode():
-        return
+        return _segmented_concrete()
     r = Real("resolution")
     assume(r > 0)
     calls = []
@@ -224,6 +224,33 @@ def h_segmented_dispatch():
         prove("crs_kept", out.crs is None)
     finally:
         geom.densify = real_densify
+
+
+def _segmented_concrete():
+    """replay of the dispatch obligation on real shapely geometries"""
+    import math
+
+    import shapely.geometry as sg
+
+    from odc.geo.geom import Geometry
+
+    r = max(min(abs(Real("resolution")), 10.0), 0.05)
+    Real("px"), Real("py"), Real("lx0"), Real("ly0"), Real("lx1"), Real("ly1")
+    poly = sg.Polygon([(0, 0), (10, 0), (10, 10), (0, 10), (0, 0)], [[(2, 2), (8, 2), (8, 8), (2, 8), (2, 2)]])
+    coll = sg.GeometryCollection([sg.Point(1, 1), sg.LineString([(0, 0), (7, 3)]), sg.MultiPolygon([poly])])
+    out = Geometry(coll, None).segmented(r).geom
+
+    def edges_ok(coords):
+        cs = list(coords)
+        return all(math.dist(a, b) <= r * (1 + 1e-9) for a, b in zip(cs[:-1], cs[1:]))
+
+    prove("collection_type_preserved", out.geom_type == "GeometryCollection" and len(out.geoms) == 3)
+    prove("points_cloned_unchanged", out.geoms[0].equals(sg.Point(1, 1)))
+    prove("line_type_preserved_and_densified", out.geoms[1].geom_type == "LineString" and edges_ok(out.geoms[1].coords))
+    mp = out.geoms[2]
+    prove("multipolygon_recursed", mp.geom_type == "MultiPolygon" and len(mp.geoms) == 1)
+    prove("exterior_ring_densified", edges_ok(mp.geoms[0].exterior.coords))
+    prove("interior_rings_densified", len(mp.geoms[0].interiors) == 1 and edges_ok(mp.geoms[0].interiors[0].coords))
 
 
 # ---- D4: to_crs guards ------------------------------------------------------------------------------------------
